@@ -72,7 +72,7 @@ def run(tier, seed):
   pending = []
   for rd in range(nrounds):
     for name in DESIGNERS:
-      sd, space_seed = r.randrange(1, 100000), r.randrange(10000)
+      sd, space_seed = (0 if rd == 0 else r.randrange(1, 100000)), r.randrange(10000)   # round 0: the boundary seed 0 (a seed, not 'no seed')
       space_seed = space_seed - space_seed % 9 + 3 * ((rd + DESIGNERS.index(name)) % 3) + space_seed % 3   # cycle the benchmark wrappers
       steps = [r.randrange(1, 4) for _ in range(r.choice([4, 7]))]
       modes = ['designer', 'inram'] + (['restore'] if name in SERIALIZABLE else []) + (['benchmark'] if name != 'cmaes' or True else [])
